@@ -13,7 +13,7 @@ RULE = (
     "a case is a C12 response (payload, coding stack, framing, chunk sizes, segmentation, decode flag, read-call "
     "sequence + draining tail (incl. drain_conn(), which presents nothing: only the connection clause applies), direct connection | pool | preloading pool) plus ONE mutation: cut = the stream ends "
     "(EOF) after k body bytes, for EVERY k from 0 to len(body)-1; chunksize = one hex digit of a chunk-size line "
-    "replaced by a non-hex byte, the line removed, or the size replaced by a well-formed but impossible one (20 hex digits); flip = one byte of the encoded content xor-ed with consistent "
+    "replaced by a non-hex byte, the line removed, the size replaced by a well-formed but impossible one (20 hex digits), or given a form that is not 1*HEXDIG but that int(x, 16) accepts (+5, -5, 0x5, a leading space, 5_0); flip = one byte of the encoded content xor-ed with consistent "
     "framing; clconflict = two different Content-Length values. The oracle is three-valued and computed from "
     "independent facts (framing arithmetic; zlib / zstandard run directly on the mutated content): MUST-RAISE, "
     "EITHER (cuts inside the terminating chunk line, truncated gzip/deflate without framing evidence, corruption in "
@@ -123,6 +123,9 @@ def ref_decode(content: bytes, codings):
     return "ok", data
 
 
+LENIENT = {"plus": b"+", "minus": b"-", "0x": b"0x", "space": b" ", "under": b"_"}
+
+
 def chunk_lines(body: bytes):
     """Offsets of the size lines of a well-formed chunked body: [(start, end_of_line_incl_crlf, size)]"""
     out = []
@@ -209,6 +212,15 @@ def build(case):
             except ValueError:
                 return head + new, eof, "raise", None, f"size line of chunk removed; data {line[:12]!r} is read as a size line"
         hexlen = len(body[s:e].split(b";")[0].rstrip(b"\r\n"))
+        if mut["how"] in LENIENT:
+            # not 1*HEXDIG, but Python's int(x, 16) takes it: "+5", "-5", "0x5", " 5", "5_0"
+            if mut["how"] == "under":
+                if hexlen < 2:
+                    raise core.InvalidCase
+                new = body[: s + 1] + b"_" + body[s + 1 :]
+            else:
+                new = body[:s] + LENIENT[mut["how"]] + body[s:]
+            return head + new, eof, "raise", None, f"chunk-size line {new[s:].split(b'\n', 1)[0]!r} is not 1*HEXDIG [lenient-size:{mut['how']}]"
         if mut["how"] == "huge":
             # a well-formed size that no stream can satisfy (larger than the address space): the bytes received end
             # inside that chunk
@@ -280,6 +292,8 @@ def _run(case) -> list[Failure]:
     sig = {"mut": mut["m"], "framing": case["framing"], "coded": bool([c for c in case.get("coding", []) if c != "identity"]), "decode": decode, "tail": case["tail"][0], "via": via}
     if why.endswith("[cut-in-zero-prefixed-size]"):
         sig["zero_prefixed_size_cut"] = True
+    if "[lenient-size:" in why:
+        sig["lenient_size"] = why.rsplit("[lenient-size:", 1)[1].rstrip("]")
     fails: list[Failure] = []
     ok_types = (ue.ProtocolError, ue.DecodeError, ue.IncompleteRead) + ((ue.InvalidHeader,) if mut["m"] == "clconflict" else ())
     with fakenet.Net(srv) as net:
@@ -352,7 +366,7 @@ def _run(case) -> list[Failure]:
                 if still_open or same_socket or second_state != "ok":
                     fails.append(Failure(
                         "conn-not-discarded",
-                        {"mut": mut["m"], "framing": case["framing"], "same_socket": same_socket, "second": second_state, "error": type(err).__name__ if err is not None else "drained", **({"zero_prefixed_size_cut": True} if sig.get("zero_prefixed_size_cut") else {})},
+                        {"mut": mut["m"], "framing": case["framing"], "same_socket": same_socket, "second": second_state, "error": type(err).__name__ if err is not None else "drained", **({"zero_prefixed_size_cut": True} if sig.get("zero_prefixed_size_cut") else {}), **({"lenient_size": sig["lenient_size"]} if sig.get("lenient_size") else {})},
                         f"{brief}: after {type(err).__name__ if err is not None else 'drain_conn()'} the socket #{first.sid} that carried the broken response is "
                         f"{'still open' if still_open else 'closed'}; the next request on the pool was {'written to that same socket' if same_socket else 'sent on another socket'} and {second_state}",
                     ))
@@ -421,6 +435,10 @@ def mutations(base, dense: bool, salt: int):
                 yield {"m": "chunksize", "idx": i, "how": "remove"}
             if lines[i][2] != 0 and i in (0, len(lines) - 2):
                 yield {"m": "chunksize", "idx": i, "how": "huge"}
+            if i in (0, len(lines) - 1):
+                for how in LENIENT:
+                    if how != "under" or len(body[lines[i][0] : lines[i][1]].split(b";")[0].rstrip(b"\r\n")) >= 2:
+                        yield {"m": "chunksize", "idx": i, "how": how}
     coded = [c for c in base.get("coding", []) if c != "identity"]
     if coded and content:
         fstep = 1 if dense or len(content) <= 120 else max(1, len(content) // 60)
